@@ -596,7 +596,7 @@ def manifest(pid, tier, replay):
                             break
                 else:
                     stats["rejected"] += 1
-                    if not re.match(r"^[A-Za-z_.]+\.ninja:\d+: ", got.get("err", "")):
+                    if not re.match(r"^[A-Za-z0-9_.]+\.ninja:\d+: ", got.get("err", "")):
                         what = "rejected without a file:line diagnostic: %r" % got.get("err", "")[:80]
                 if what:
                     nviol += 1
@@ -610,12 +610,13 @@ def manifest(pid, tier, replay):
             run([(rp["files"], rp["exp"], rp.get("layout", ""))])
             return report(pid, found, {})
         K = 150 if tier == "quick" else 1500
-        mc = fnlib.mc_run("Manifest.tla", "SPECIFICATION Spec\nINVARIANT Total\nCHECK_DEADLOCK FALSE\n", wd, workers=4, env={"K": max(2, K // 10)}, xmx="8g", timeout=2400)
+        SC = 2000 if tier == "quick" else 30000
+        mc = fnlib.mc_run("Manifest.tla", "SPECIFICATION Spec\nINVARIANT Total\nCHECK_DEADLOCK FALSE\n", wd, workers=4, env={"K": max(2, K // 10), "SC": SC // 4}, xmx="8g", timeout=2400)
         if mc["error"]:
             raise Broken("Manifest model check failed: %s\n%s" % (mc["error"], mc["out"][-1500:]))
         vec = os.path.join(wd, "progs.ndjson")
         r = run_tlc("Manifest.tla", os.path.join(wd, "exp.cfg") if False else _write(os.path.join(wd, "exp.cfg"), "INIT StopInit\nNEXT Next\nCHECK_DEADLOCK FALSE\n"),
-                    env={"K": K, "OUT": vec}, extra=["-noGenerateSpecTE", "-seed", str(seed())], timeout=2400, xmx="12g")
+                    env={"K": K, "SC": SC, "OUT": vec}, extra=["-noGenerateSpecTE", "-seed", str(seed())], timeout=2400, xmx="12g")
         if r["error"] or not os.path.exists(vec):
             raise Broken("Manifest export failed: %s\n%s" % (r["error"], r["out"][-1500:]))
         rng = random.Random(seed())
@@ -634,7 +635,8 @@ def manifest(pid, tier, replay):
             "evaluations": len(vectors), "distinct_nontrivial": stats["accepted"],
             "rule": "programs of the bounded grammar of Manifest.tla (slots filled from classes of statement forms: bindings with $-escapes and shadowing at every scope, "
                     "rules with every reserved binding, build statements with every input kind / implicit outputs / validations / build-level bindings / pool / dyndep, "
-                    "defaults, pools, include and subninja of a second file, the legacy phony forms, and every constraint violation), TLC-sampled by seed; each program in a plain "
+                    "defaults, pools, include and subninja of a second file, the legacy phony forms, and every constraint violation; a class built to be accepted; and the enumerated include/subninja scoping class: "
+                    "two include-or-subninja statements over two files that bind variables, declare rules and build outputs, with rebinding between and after), TLC-sampled by seed; each program in a plain "
                     "and a layout variant (CRLF, comments, $-newline continuations, $x for ${x}); non-trivial = programs accepted by the reference (their whole graph is compared)",
             "accepted_programs": stats["accepted"], "rejected_programs": stats["rejected"], "exhaustive": False,
         }, time.time() - t0, nviol, ["TLC", "Manifest.tla as the reading of the manual", "paths and values come from a fixed vocabulary (canonicalisation and quoting of those are tabulated in the spec)"])
